@@ -39,6 +39,11 @@ type Flow struct {
 	// callee before the state is carried back to the call site (for instance to
 	// record what the callee returns on that path).
 	OnReturn func(st string, ret *ssa.Return, call ssa.CallInstruction) string
+	// OnFact, if set, is told when a branch teaches the path the truth of a boolean value that is NOT the
+	// branch condition itself: a condition that was computed into a flag (or returned by an inlined helper)
+	// and is tested later. v is the condition value, val its truth on this path. Rules pass the same logic
+	// they apply in Branch.
+	OnFact func(st string, v ssa.Value, val bool) (string, bool)
 
 	inlineMemo  map[string][]string
 	inlineStack map[*ssa.Function]bool
@@ -82,7 +87,7 @@ func (f *Flow) exitStates(callee *ssa.Function, user string, call ssa.CallInstru
 	}
 	f.inlineStack[callee] = true
 	defer delete(f.inlineStack, callee)
-	sub := &Flow{Fn: callee, Init: []string{user}, Step: f.Step, StepDefer: f.StepDefer, Branch: f.Branch, MaxStates: f.MaxStates, Inline: f.Inline, OnReturn: f.OnReturn,
+	sub := &Flow{Fn: callee, Init: []string{user}, Step: f.Step, StepDefer: f.StepDefer, Branch: f.Branch, MaxStates: f.MaxStates, Inline: f.Inline, OnReturn: f.OnReturn, OnFact: f.OnFact,
 		inlineMemo: f.inlineMemo, inlineStack: f.inlineStack}
 	res := sub.Run()
 	set := map[string]bool{}
@@ -181,11 +186,16 @@ func (f *Flow) Run() *FlowResult {
 			}
 			for _, st := range out {
 				core, fa := splitFacts(st)
+				var learnt []learntFact
 				if br != nil && fx.active() {
 					var feasible bool
+					before := fa
 					fa, feasible = fx.assume(fa, br.Cond, si == 0)
 					if !feasible {
 						continue
+					}
+					if f.OnFact != nil && fa != before {
+						learnt = fx.newlyLearnt(before, fa, br.Cond)
 					}
 				}
 				if br != nil && f.Branch != nil {
@@ -195,6 +205,22 @@ func (f *Flow) Run() *FlowResult {
 						continue
 					}
 					core = joinState(nu, d)
+				}
+				if len(learnt) > 0 {
+					u, d := splitState(core)
+					dropped := false
+					for _, lf := range learnt {
+						nu, ok := f.OnFact(u, lf.v, lf.val)
+						if !ok {
+							dropped = true
+							break
+						}
+						u = nu
+					}
+					if dropped {
+						continue
+					}
+					core = joinState(u, d)
 				}
 				if fx.active() {
 					fa = fx.enter(fa, b, si, succ)
@@ -538,23 +564,53 @@ type Guard struct {
 //
 // block B is guarded by ok (a phi) and, through it, by c.
 func GuardsOf(b *ssa.BasicBlock) []Guard {
-	return guardsOf(b, 0)
+	return guardsOfR(b, 0, true)
 }
 
-func guardsOf(b *ssa.BasicBlock, depth int) []Guard {
+func guardsOf(b *ssa.BasicBlock, depth int) []Guard { return guardsOfR(b, depth, true) }
+
+func guardsOfR(b *ssa.BasicBlock, depth int, resolve bool) []Guard {
 	out := directGuards(b)
 	if depth >= 3 {
 		return out
 	}
+	res := func(v ssa.Value) ssa.Value {
+		if resolve {
+			return Resolve(v)
+		}
+		return v
+	}
 	n := len(out)
 	for i := 0; i < n; i++ {
-		preds, opnds := flagPreds(out[i])
+		preds, opnds := flagPredsR(out[i], resolve)
 		if preds == nil {
 			continue
 		}
 		var common []Guard
+		var phiBlk *ssa.BasicBlock
+		switch x := res(out[i].Cond).(type) {
+		case *ssa.Phi:
+			phiBlk = x.Block()
+		case *ssa.BinOp:
+			if ph, ok := res(x.X).(*ssa.Phi); ok {
+				phiBlk = ph.Block()
+			} else if ph, ok := res(x.Y).(*ssa.Phi); ok {
+				phiBlk = ph.Block()
+			}
+		}
 		for k, p := range preds {
-			alt := guardsOf(p, depth+1)
+			alt := guardsOfR(p, depth+1, resolve)
+			// the way in may itself be one side of a test at the end of p
+			if phiBlk != nil && len(p.Instrs) > 0 && len(p.Succs) == 2 && p.Succs[0] != p.Succs[1] {
+				if br, ok := p.Instrs[len(p.Instrs)-1].(*ssa.If); ok {
+					pol := p.Succs[0] == phiBlk
+					c, neg := StripNot(br.Cond)
+					if neg {
+						pol = !pol
+					}
+					alt = append(alt, Guard{Cond: c, True: pol, If: br})
+				}
+			}
 			if o := opnds[k]; o != nil {
 				// the merged operand itself has the tested polarity on this way in
 				c, neg := StripNot(o)
@@ -594,10 +650,20 @@ func guardsOf(b *ssa.BasicBlock, depth int) []Guard {
 // it returns the predecessors of the phi's block over which the test can have
 // the guard's polarity, and for each the merged operand when it is not a
 // constant (nil entry: constant). A nil result means: not such a guard.
-func flagPreds(g Guard) ([]*ssa.BasicBlock, []ssa.Value) {
+func flagPreds(g Guard) ([]*ssa.BasicBlock, []ssa.Value) { return flagPredsR(g, true) }
+
+// flagPredsR: with resolve=false merged values kept in memory are not looked through (used by the reaching-
+// store analysis itself, which Resolve is built on).
+func flagPredsR(g Guard, resolve bool) ([]*ssa.BasicBlock, []ssa.Value) {
+	res := func(v ssa.Value) ssa.Value {
+		if resolve {
+			return Resolve(v)
+		}
+		return v
+	}
 	var phi *ssa.Phi
 	wantNonNil, nilTest := false, false
-	switch x := g.Cond.(type) {
+	switch x := res(g.Cond).(type) {
 	case *ssa.Phi:
 		phi = x
 	case *ssa.BinOp:
@@ -610,7 +676,7 @@ func flagPreds(g Guard) ([]*ssa.BasicBlock, []ssa.Value) {
 		} else if isNilConst(x.X) {
 			other = x.Y
 		}
-		p, ok := other.(*ssa.Phi)
+		p, ok := res(other).(*ssa.Phi) // a named result kept in memory holds the merged value
 		if !ok {
 			return nil, nil
 		}
@@ -642,6 +708,13 @@ func flagPreds(g Guard) ([]*ssa.BasicBlock, []ssa.Value) {
 					sawConst = true
 					continue // never nil
 				}
+				if testedOnWay(blk.Preds[i], blk, e, true) {
+					sawConst = true
+					continue // this way in is behind `e != nil`
+				}
+			} else if testedOnWay(blk.Preds[i], blk, e, false) {
+				sawConst = true
+				continue // this way in is behind `e == nil`
 			}
 			preds, opnds = append(preds, blk.Preds[i]), append(opnds, nil)
 			continue
@@ -895,4 +968,141 @@ func (c Cmp) Is(op token.Token, x, y func(ssa.Value) bool) bool {
 	}
 	mirror := map[token.Token]token.Token{token.EQL: token.EQL, token.NEQ: token.NEQ, token.LSS: token.GTR, token.GTR: token.LSS, token.LEQ: token.GEQ, token.GEQ: token.LEQ}
 	return c.Op == mirror[op] && x(c.Y) && y(c.X)
+}
+
+// FlagPreds exposes flagPreds for debugging.
+func FlagPreds(g Guard) ([]*ssa.BasicBlock, []ssa.Value) { return flagPreds(g) }
+
+// GuardsOfEdge returns the guards that hold when control passes from block from to its successor to:
+// those of from, plus the test at the end of from if the edge is one side of it.
+func GuardsOfEdge(from, to *ssa.BasicBlock) []Guard {
+	out := append([]Guard{}, GuardsOf(from)...)
+	if len(from.Instrs) > 0 && len(from.Succs) == 2 && from.Succs[0] != from.Succs[1] {
+		if br, ok := from.Instrs[len(from.Instrs)-1].(*ssa.If); ok {
+			pol := from.Succs[0] == to
+			c, neg := StripNot(br.Cond)
+			if neg {
+				pol = !pol
+			}
+			out = append(out, Guard{Cond: c, True: pol, If: br})
+		}
+	}
+	return out
+}
+
+// GuardedSource is a value that can flow into a merged value, with the guards of the way it takes.
+type GuardedSource struct {
+	Val    ssa.Value
+	Guards []Guard
+}
+
+// SourcesWithGuards follows v back through merges (phis) and unique reaching stores and returns its non-nil
+// sources, each with the guards that hold on the way from the source to the use in block at.
+func SourcesWithGuards(v ssa.Value, at *ssa.BasicBlock) []GuardedSource {
+	var out []GuardedSource
+	seen := map[ssa.Value]bool{}
+	var walk func(x ssa.Value, guards []Guard, depth int)
+	walk = func(x ssa.Value, guards []Guard, depth int) {
+		if x == nil || depth > 8 {
+			return
+		}
+		if r := Resolve(x); r != x {
+			x = r
+		}
+		if isNilConst(x) {
+			return
+		}
+		if phi, ok := x.(*ssa.Phi); ok {
+			if seen[x] {
+				return
+			}
+			seen[x] = true
+			for i, e := range phi.Edges {
+				if i >= len(phi.Block().Preds) {
+					continue
+				}
+				p := phi.Block().Preds[i]
+				if deadEdge(p, phi.Block()) {
+					continue
+				}
+				walk(e, append(append([]Guard{}, guards...), GuardsOfEdge(p, phi.Block())...), depth+1)
+			}
+			return
+		}
+		out = append(out, GuardedSource{Val: x, Guards: guards})
+	}
+	walk(v, append([]Guard{}, GuardsOf(at)...), 0)
+	return out
+}
+
+
+// InfeasibleEdges returns the CFG edges (as "from->to" block indices) that cannot lie on a path to block b
+// because a merged flag tested on the way to b was set differently on that way in.
+func InfeasibleEdges(b *ssa.BasicBlock) map[[2]*ssa.BasicBlock]bool {
+	out := map[[2]*ssa.BasicBlock]bool{}
+	for _, g := range guardsOfR(b, 0, false) {
+		preds, _ := flagPredsR(g, false)
+		if preds == nil {
+			continue
+		}
+		var phi *ssa.Phi
+		switch x := g.Cond.(type) {
+		case *ssa.Phi:
+			phi = x
+		case *ssa.BinOp:
+			if p, ok := x.X.(*ssa.Phi); ok {
+				phi = p
+			} else if p, ok := x.Y.(*ssa.Phi); ok {
+				phi = p
+			}
+		}
+		if phi == nil {
+			continue
+		}
+		ok := map[*ssa.BasicBlock]bool{}
+		for _, p := range preds {
+			ok[p] = true
+		}
+		for _, p := range phi.Block().Preds {
+			if !ok[p] {
+				out[[2]*ssa.BasicBlock{p, phi.Block()}] = true
+			}
+		}
+	}
+	return out
+}
+
+
+// testedOnWay reports whether the way from block p into blk lies behind a nil test of e with the given outcome.
+func testedOnWay(p, blk *ssa.BasicBlock, e ssa.Value, nonNil bool) bool {
+	gs := append([]Guard{}, directGuards(p)...)
+	if len(p.Instrs) > 0 && len(p.Succs) == 2 && p.Succs[0] != p.Succs[1] {
+		if br, ok := p.Instrs[len(p.Instrs)-1].(*ssa.If); ok {
+			pol := p.Succs[0] == blk
+			c, neg := StripNot(br.Cond)
+			if neg {
+				pol = !pol
+			}
+			gs = append(gs, Guard{Cond: c, True: pol, If: br})
+		}
+	}
+	for _, g := range gs {
+		b, ok := g.Cond.(*ssa.BinOp)
+		if !ok || (b.Op != token.EQL && b.Op != token.NEQ) {
+			continue
+		}
+		var other ssa.Value
+		if isNilConst(b.Y) {
+			other = b.X
+		} else if isNilConst(b.X) {
+			other = b.Y
+		}
+		if other == nil || other != e {
+			continue
+		}
+		if (g.True == (b.Op == token.NEQ)) == nonNil {
+			return true
+		}
+	}
+	return false
 }
